@@ -324,6 +324,9 @@ def with_communicator(rng, opts, p=0.25):
             opts['wrap'] = True
         if rng.random() < 0.4:
             opts['eager'] = True
+        if rng.random() < 0.4:
+            # one of its announcements fails in a way the process tolerates (closed connection, invalid channel, timeout)
+            opts['broadcast_fault'] = [rng.randint(1, 6), rng.choice(['ConnectionClosed', 'ChannelInvalidStateError', 'TimeoutError'])]
     return opts
 
 
